@@ -10,6 +10,17 @@ history of 1..4 runs on the same output file (two input variants, `--overwrite`
 on/off, one crash point per run); after every run the output directory is
 inspected.  Model side: `GenFile.trace exportNew` (Drivers/GenFile.lean) on the
 same history with the observed number of writes.
+
+Failure *mode* (case key `mode`): "once" — only the named call fails — or
+"persist" — that call and every later write / flush / close fails too (a full
+disk does not go away after the first call that reports it).  Model side:
+`GenFile.exportMode` (the failure schedule, `C31_persistent`).
+Starting directory (case key `init`, one entry per output file): the output
+file name may be there before the first run — a hand-made file, a symbolic link
+(dangling or to an existing file in another folder), a second hard link of a
+file in another folder — and a stale temporary sibling of a killed run may be
+there.  The file behind the link / the other name is observed like the output
+file itself.  Model side: driver key `init`, the theorems from any directory.
 """
 import builtins
 import io
@@ -19,6 +30,7 @@ import os
 import re
 import shutil
 import tempfile
+import zlib
 
 from harness.core import Check, use_repo
 
@@ -28,6 +40,14 @@ GEN_KEY = {"mm_dot": ("textx", "dot"), "mm_pu": ("textx", "plantuml"), "model_do
 EXC = {"OSError": lambda: OSError(28, "No space left on device (injected)"),
        "RuntimeError": lambda: RuntimeError("injected failure"),
        "KeyboardInterrupt": lambda: KeyboardInterrupt()}
+
+MODES = ["once", "persist"]
+# what is at the output file name before the first run of a history
+INIT_KINDS = ["none", "foreign", "dangling", "link", "hardlink"]
+FOREIGN = "// written by hand, not generated\n" * 12        # a complete file that no generator run produced
+FOREIGN_ID = 999999                                          # its chunk id on the model side
+STALE = "stale temporary file of a killed run\n"
+DEST = 100                                                   # model path of the file behind output file t: DEST + t
 
 PROVIDERS = ["plain", "fqn", "importuri", "globalrepo", "mmglobal"]   # None = no scope provider at all
 LINETYPES = ["ortho", "polyline"]
@@ -258,10 +278,18 @@ class FaultFile:
 class Layer:
     """patches open / os.replace / os.rename for paths below `root` while active"""
 
-    def __init__(self, root, crash, exc, watch=None):
+    def __init__(self, root, crash, exc, watch=None, mode="once"):
         self.root = os.path.realpath(root)
-        self.crash = crash          # "none" | "open" | "close" | "replace" | ["write", k, partly]
+        # "none" | "open" | "close" | "replace" | ["write", k, partly] | ["call", k, partly] (the k-th fallible
+        # call of the run — open for writing / write / flush / close / replace — whatever it is)
+        self.crash = crash
         self.exc = exc
+        self.mode = mode            # "once": only that call fails; "persist": every later write / flush / close too
+        self.failing = False        # a persistent failure is under way
+        self.calls = 0              # fallible calls so far
+        self.nth = {}               # ... per group (open / write / close / replace)
+        self.fired = None           # [group, n-th call of the group] of the first failing call
+        self.refires = 0            # later failing calls of a persistent failure
         self.writes = 0
         self.events = []
         self.triggered = False
@@ -306,16 +334,40 @@ class Layer:
         except Exception:
             return False
 
+    def due(self, kind, idx=None):
+        """is the fallible call that is about to be made the one to fail (or one after it, persistent mode)"""
+        n = self.calls
+        self.calls += 1
+        grp = "close" if kind in ("flush", "close") else kind
+        j = self.nth.get(grp, 0)
+        self.nth[grp] = j + 1
+        if self.failing:
+            if grp in ("write", "close"):   # the condition has not gone away; creating, renaming, removing still work
+                self.refires += 1
+                return True
+            return False
+        if not self.armed:
+            return False
+        c = self.crash
+        if isinstance(c, list):
+            hit = c[1] == n if c[0] == "call" else (grp == "write" and c[0] == "write" and c[1] == idx)
+        else:
+            hit = c == grp
+        if hit:
+            self.triggered = True
+            self.armed = False
+            self.failing = self.mode == "persist"
+            self.fired = [grp, j]
+        return hit
+
     def fire(self):
-        self.triggered = True
-        self.armed = False
         raise EXC[self.exc]()
 
     def open(self, file, mode="r", *a, **kw):
         if self.inside(file) and any(c in mode for c in "wax+"):
             self.probe("open")
             self.events.append(["open", os.path.basename(os.fspath(file)), mode])
-            if self.armed and self.crash == "open":
+            if self.due("open"):
                 self.fire()
             return FaultFile(self._open(file, mode, *a, **kw), self, file)
         return self._open(file, mode, *a, **kw)
@@ -324,8 +376,9 @@ class Layer:
         k = self.writes
         self.writes += 1
         self.probe("write %d" % k)
-        if self.armed and isinstance(self.crash, list) and self.crash[0] == "write" and self.crash[1] == k:
-            if self.crash[2] and len(data) > 1:
+        first = not self.failing
+        if self.due("write", k):
+            if first and self.crash[2] and len(data) > 1:
                 f.write(data[: max(1, len(data) // 2)])
             self.events.append(["write!", k])
             self.fire()
@@ -334,14 +387,14 @@ class Layer:
     def on_flush(self, f, what):
         self.probe(what)
         self.events.append([what])
-        if self.armed and self.crash == "close":
+        if self.due(what):
             self.fire()
 
     def replace(self, src, dst, *a, **kw):
         if self.inside(dst):
             self.probe("replace")
             self.events.append(["replace", os.path.basename(os.fspath(src)), os.path.basename(os.fspath(dst))])
-            if self.armed and self.crash == "replace":
+            if self.due("replace"):
                 self.fire()
         return self._replace(src, dst, *a, **kw)
 
@@ -349,7 +402,7 @@ class Layer:
         if self.inside(dst):
             self.probe("rename")
             self.events.append(["rename", os.path.basename(os.fspath(src)), os.path.basename(os.fspath(dst))])
-            if self.armed and self.crash == "replace":
+            if self.due("replace"):
                 self.fire()
         return self._rename(src, dst, *a, **kw)
 
@@ -394,6 +447,9 @@ class Workspace:
         self.kind = case["kind"]
         self.via = case.get("via", "api")
         self.args = dict(case.get("args") or {})
+        self.mode = case.get("mode", "once")
+        if self.mode not in MODES:
+            raise ValueError(f"unknown failure mode {self.mode!r}")
         self.d = tempfile.mkdtemp(prefix="c31-")
         try:
             self.load(case, generator_for_language_target, metamodel_for_language)
@@ -430,6 +486,44 @@ class Workspace:
             self.tpaths.append(os.path.join(ind if case.get("beside") else self.out, tname))
         self.mm = self.mms[0] if self.mms else None
         self.targets = list(dict.fromkeys(self.tpaths))          # the distinct output files of the history
+        init = list(case.get("init") or [])
+        self.init = [dict(init[t]) if t < len(init) and init[t] else {"kind": "none"} for t in range(len(self.targets))]
+        for ini in self.init:
+            if ini.get("kind", "none") not in INIT_KINDS:
+                raise ValueError(f"unknown kind of starting state {ini.get('kind')!r}")
+        self.dests = [None] * len(self.targets)                  # the file behind the link / the other hard link
+
+    def apply_init(self, refs):
+        """puts the starting state of the history in place; returns what was put there.  The name of the stale
+        temporary sibling is the one the reference export used (`refs`), whatever the naming scheme is."""
+        done = []
+        for t, (tpath, ini) in enumerate(zip(self.targets, self.init)):
+            kind = ini.get("kind", "none")
+            store = os.path.join(self.d, f"store{t}")
+            dest = os.path.join(store, os.path.basename(tpath))
+            if kind != "none":
+                os.mkdir(store)
+            if kind in ("link", "hardlink"):
+                with open(dest, "w", encoding="utf-8") as f:
+                    f.write(FOREIGN)
+            if kind == "foreign":
+                with open(tpath, "w", encoding="utf-8") as f:
+                    f.write(FOREIGN)
+            elif kind in ("dangling", "link"):
+                os.symlink(os.path.relpath(dest, os.path.dirname(tpath)), tpath)
+                self.dests[t] = dest
+            elif kind == "hardlink":
+                os.link(dest, tpath)
+                self.dests[t] = dest
+            stale = False
+            if ini.get("stale"):
+                sfx = {refs[i]["tmp_suffix"] for i in range(len(self.tpaths)) if self.tpaths[i] == tpath}
+                if len(sfx) == 1 and None not in sfx:
+                    with open(tpath + sfx.pop(), "w", encoding="utf-8") as f:
+                        f.write(STALE)
+                    stale = True
+            done.append({"kind": kind, "stale": stale})
+        return done
 
     def model_metamodel(self, ind):
         from textx import metamodel_from_str
@@ -493,23 +587,47 @@ class Workspace:
             os.mkdir(rd)
             with Layer(self.d, "none", "OSError") as lay:
                 self.gen(self.mms[i], self.objs[i], rd, True, False, **self.args)
-            with open(os.path.join(rd, self.tname(i)), encoding="utf-8") as f:
-                refs.append({"text": canon_text(f.read()), "writes": lay.writes})
+            # the temporary sibling the export writes to, as a suffix of the output file name (None: no such file)
+            opened = [e[1] for e in lay.events if e[0] == "open"]
+            tn = self.tname(i)
+            sfx = opened[0][len(tn):] if len(opened) == 1 and opened[0].startswith(tn) and opened[0] != tn else None
+            with open(os.path.join(rd, tn), encoding="utf-8") as f:
+                refs.append({"text": canon_text(f.read()), "writes": lay.writes, "calls": lay.calls, "tmp_suffix": sfx})
         return refs
 
-    def state(self, tpath, texts):
-        """absent / complete:i (the complete output of input i for this file) / truncated:n / other:n"""
-        if not os.path.lexists(tpath):
+    def state(self, tpath, texts, owner=None):
+        """what reading the name `tpath` gives: absent (nothing there, or a link that leads nowhere) / foreign (the
+        hand-made file of the starting state) / complete:i (the complete output of input i for output file `owner`)
+        / truncated:n / other:n"""
+        if not os.path.exists(tpath):
             return "absent"
         if not os.path.isfile(tpath):
             return "other:-1"
         with open(tpath, encoding="utf-8", errors="replace") as f:
-            return self.state_of(tpath, f.read(), texts)
+            return self.state_of(owner or tpath, f.read(), texts)
+
+    @staticmethod
+    def entry(tpath):
+        """kind of the directory entry itself"""
+        if os.path.islink(tpath):
+            return "link"
+        if not os.path.lexists(tpath):
+            return "none"
+        return "file" if os.path.isfile(tpath) else "other"
+
+    def look(self, texts):
+        """state of every output file, of the file behind it (None: there is none), kind of every entry, leftovers"""
+        return {"states": [self.state(t, texts) for t in self.targets],
+                "dstates": [None if d is None else self.state(d, texts, owner=t) for t, d in zip(self.targets, self.dests)],
+                "entries": [self.entry(t) for t in self.targets],
+                "extra": self.extras()}
 
     def state_of(self, tpath, content, texts):
         """classification of `content` (None = no file) as a content of output file `tpath`"""
         if content is None:
             return "absent"
+        if content == FOREIGN:
+            return "foreign"
         content = canon_text(content)
         mine = [(i, t) for i, t in enumerate(texts) if self.tpaths[i] == tpath]
         for i, t in mine:
@@ -519,15 +637,25 @@ class Workspace:
             return "truncated:%d" % len(content)
         return "other:%d" % len(content)
 
+    @staticmethod
+    def sig(path):
+        try:
+            with open(path, "rb") as f:
+                data = f.read()
+            return [len(data), zlib.crc32(data)]
+        except OSError:
+            return [-1, 0]
+
     def extras(self):
-        """everything in the folders of the output files that is neither an input nor an output file"""
+        """everything in the folders of the output files that is neither an input nor an output file:
+        [name, size, checksum]"""
         found = []
         for d in dict.fromkeys(os.path.dirname(t) for t in self.targets):
             keep = {os.path.basename(t) for t in self.targets if os.path.dirname(t) == d}
             for i, p in enumerate(self.paths):
                 if os.path.dirname(p) == d:
                     keep |= self.sources[i]
-            found += [x for x in sorted(os.listdir(d)) if x not in keep]
+            found += [[x] + self.sig(os.path.join(d, x)) for x in sorted(os.listdir(d)) if x not in keep]
         return found
 
     def close(self):
@@ -559,7 +687,8 @@ class Prop(Check):
                 "GenFile.C31_skip_iff", "GenFile.C31_pinned_false", "GenFile.C31_pinned_overwrite_false",
                 "GenFile.C31_ops_summary", "GenFile.C31_prefix_atomic", "GenFile.C31_mid_flag", "GenFile.C31_history_exact",
                 "GenFile.C31_lastDone_spec", "GenFile.C31_failed_runs_keep", "GenFile.C31_last_writer",
-                "GenFile.C31_history_from", "GenFile.C31_no_skip_from"]
+                "GenFile.C31_history_from", "GenFile.C31_no_skip_from",
+                "GenFile.C31_faults", "GenFile.C31_faults_atomic", "GenFile.C31_persistent"]
     DRIVER = "Drivers/GenFile.lean"
     QUICK_CASES = 12       # inputs (about 400-520 cases); every write of every input gets its own case (see gen)
     THOROUGH_CASES = 200
@@ -575,8 +704,12 @@ class Prop(Check):
             "partial write) plus the open / flush-close / replace / no-failure points; each case is a history of 1..4 "
             "runs on one or two output files (second input = other version of the same source or another source file; "
             "--overwrite on/off; with or without --output-path; OSError / RuntimeError / KeyboardInterrupt; 15 % of the "
-            "histories through the `textx generate` command line); non-trivial = an injected failure fired while the "
-            "output was being produced")
+            "histories through the `textx generate` command line); every crash point once as a one-shot failure and "
+            "once as a persistent one (that call and every later write / flush / close of the run fail); crash points "
+            "by call index behind the calls of the reference export; the starting directory rotates over the crash "
+            "points: output file name absent / a hand-made file / a dangling symbolic link / a link to a file in "
+            "another folder / a second hard link of such a file, with or without a stale temporary sibling; "
+            "non-trivial = an injected failure fired while the output was being produced")
     MODELLED = ("hand-modelled: export.py _open_output as used by metamodel_export/model_export, generators.py gen_file "
                 "(GenFile.exportNew/genFile/runAll; an export = the sequence of its write calls, any failing call "
                 "propagates); tie X: per run outcome (done/skipped/failed), state of every output file of the history "
@@ -584,16 +717,23 @@ class Prop(Check):
                 "(GenFile.traceOn) on the same history; operation level (GenFile.program/opsTrace, proved to add up to "
                 "exportNew): the output file is looked at before every intercepted open / write / flush / close / "
                 "replace / remove of a run and must be as at the start of the run until the export has completed "
-                "(model: no operation before the last has an effect outside the temporary sibling, C31_mid_flag); the bodies of metamodel_export_tofile / model_export_to_file are "
+                "(model: no operation before the last has an effect outside the temporary sibling, C31_mid_flag); "
+                "failure schedules (GenFile.exportFaults: any subset of the fallible calls raises, the close of the "
+                "`with` block on both ways; C31_faults: = exportNew at the first failing call reached; the driver runs "
+                "exportMode = the schedule of the injection, one-shot or persistent); histories start from the observed "
+                "directory (driver key init: hand-made file, link destination / other hard link as a path of its own "
+                "that the modelled code never writes to, stale temporary sibling); the bodies of metamodel_export_tofile / model_export_to_file are "
                 "not modelled statement by statement: that each of their write calls lets a failure propagate is "
                 "observed on the implementation (a swallowed failure is an outcome mismatch and an oracle failure); "
-                "not exhibited: OS-level durability (power loss, non-atomic rename), failures of os.remove, a stale "
-                "temporary file of an earlier killed process, export of a repository object (`repo=` argument, not "
+                "not exhibited: OS-level durability (power loss, non-atomic rename), failures of os.remove, export of a repository object (`repo=` argument, not "
                 "reachable through a registered generator), grammars with `reference` to other registered languages")
     ASSUMPTIONS = [
         "a failure is an exception raised by open / write / flush / close / os.replace (or by the renderer between two writes)",
         "os.replace is atomic (POSIX rename semantics)",
         "fault injection sees writers that go through builtins.open / io.open and os.replace / os.rename",
+        "a persistent failure (disk full, quota, file size limit) makes every later write / flush / close of the run "
+        "fail; creating, renaming and removing files still work",
+        "a symbolic link / second hard link at the output file name leads to a file in another folder of the same file system",
     ]
 
     # ------------------------------------------------------------------ gen
@@ -636,23 +776,40 @@ class Prop(Check):
                 nw = 8
             points = [["write", k, bool((k + i) % 2)] for k in range(nw)]
             points += ["open", "close", "replace", "none", ["write", nw, False]]
-            for p in points:
-                yield self.gen_history(r, stub, p)
+            # "the k-th fallible call of the run, whatever it is": one inside the calls of the reference export
+            # (open, nw writes, close, replace), three behind them — calls the export makes only in some
+            # situation (a commit step that writes) are crash points as well
+            points += [["call", r.below(nw + 3), r.chance(0.5)]] + [["call", nw + 3 + j, False] for j in range(3)]
+            for j, p in enumerate(points):
+                # the starting directory rotates over the crash points (fixed per position: every quick run has
+                # every kind for every generator); every crash point is taken as a one-shot and as a persistent failure
+                yield self.gen_history(r, stub, p, "once", self.gen_init(r, i + j))
+                if p != "none" and not (isinstance(p, list) and p[1] >= nw):
+                    yield self.gen_history(r, stub, p, "persist", self.gen_init(r, i + j + 3), short=True)
 
-    def gen_history(self, r, stub, point):
+    INIT_ROTATION = ["none", "dangling", "none", "link", "foreign", "none", "hardlink", "none"]
+
+    def gen_init(self, r, pos):
+        """starting state of the (at most two) output files of a history"""
+        first = {"kind": self.INIT_ROTATION[pos % len(self.INIT_ROTATION)], "stale": pos % 5 == 3}
+        return [first, {"kind": r.choice(INIT_KINDS), "stale": r.chance(0.2)} if r.chance(0.3) else {"kind": "none"}]
+
+    def gen_history(self, r, stub, point, mode="once", init=None, short=False):
         inputs = stub["inputs"]
         exc = r.weighted([("OSError", 6), ("RuntimeError", 2), ("KeyboardInterrupt", 1)])
         runs = []
-        shape = r.weighted([("crash-retry", 4), ("done-crash-skip", 3), ("crash", 1), ("random", 3)])
+        shape = r.weighted([("crash-retry", 4), ("done-crash-skip", 3), ("crash", 1), ("random", 0 if short else 3)])
         nin = len(inputs)
+        # an output file that is there from the start is only written to with --overwrite
+        there = bool(init) and init[0]["kind"] in ("foreign", "link", "hardlink")
 
         def run(inp, ow, crash):
             return {"input": inp, "overwrite": ow, "crash": crash, "exc": exc}
 
         if shape == "crash":
-            runs = [run(0, r.chance(0.5), point)]
+            runs = [run(0, r.chance(0.9 if there else 0.5), point)]
         elif shape == "crash-retry":
-            runs = [run(0, r.chance(0.3), point), run(r.below(nin), False, "none")]
+            runs = [run(0, r.chance(0.9 if there else 0.3), point), run(r.below(nin), r.chance(0.5) if there else False, "none")]
         elif shape == "done-crash-skip":
             runs = [run(r.below(nin), r.chance(0.3), "none"), run(0, True, point), run(r.below(nin), False, "none")]
         else:
@@ -664,6 +821,10 @@ class Prop(Check):
                 if runs[k]["crash"] == "none":
                     runs[k] = dict(runs[k], crash=r.choice(["open", "close", "replace", ["write", r.below(6), r.chance(0.5)]]))
         case = dict(stub, runs=runs)
+        if mode != "once":
+            case["mode"] = mode
+        if init and any(x.get("kind", "none") != "none" or x.get("stale") for x in init):
+            case["init"] = init
         if r.chance(0.25 if nin == 1 else 0.1):
             case["beside"] = True     # no --output-path: the file is generated next to the input
         if (case["kind"] != "model_dot" or case.get("provider") is None) and r.chance(0.15):
@@ -680,25 +841,32 @@ class Prop(Check):
         try:
             refs = ws.reference()
             texts = [x["text"] for x in refs]
+            init = ws.apply_init(refs)
+            start = ws.look(texts)
             steps = []
             for run in case["runs"]:
                 i = run["input"]
                 out_dir = None if case.get("beside") else ws.out
-                with Layer(ws.d, run["crash"], run.get("exc", "OSError"), watch=ws.tpaths[i]) as lay:
+                with Layer(ws.d, run["crash"], run.get("exc", "OSError"), watch=ws.tpaths[i], mode=ws.mode) as lay:
                     raised = None
                     try:
                         ws.call(i, out_dir, run["overwrite"])
                     except BaseException as e:   # the injected failure (or anything the generator raises)
                         raised = type(e).__name__
-                states = [ws.state(t, texts) for t in ws.targets]
+                seen = ws.look(texts)
+                states = seen["states"]
                 touched = any(e[0] in ("open", "replace", "rename") for e in lay.events)
                 steps.append({
                     "raised": raised,
                     "triggered": lay.triggered,
+                    "fired": lay.fired,
+                    "refires": lay.refires,
                     "touched": touched,
                     "state": states[ws.targets.index(ws.tpaths[i])],
                     "states": states,
-                    "extra": ws.extras(),
+                    "dstates": seen["dstates"],
+                    "entries": seen["entries"],
+                    "extra": seen["extra"],
                     "mid": None if lay.mid is None else
                     {"before": lay.mid["before"], "state": ws.state_of(ws.tpaths[i], lay.mid["content"], texts)},
                     "writes": lay.writes,
@@ -709,7 +877,7 @@ class Prop(Check):
             canon = [min(j for j in range(len(texts)) if paths[j] == paths[i] and texts[j] == texts[i])
                      for i in range(len(texts))]
             return {"writes": [x["writes"] for x in refs], "sizes": [len(t) for t in texts],
-                    "paths": paths, "canon": canon, "steps": steps}
+                    "paths": paths, "canon": canon, "init": init, "start": start, "steps": steps}
         finally:
             for g, w in zip(quiet, was_disabled):
                 g.disabled = w
@@ -736,51 +904,98 @@ class Prop(Check):
             if crash is None:
                 # the failure point was not reached although the run did write: the writer is invisible to the injection
                 crash = "none"
+            if isinstance(crash, list) and crash[0] == "call":
+                # "the k-th fallible call, whatever it is": the model's crash point is the call that was hit
+                grp, j = st["fired"] if st["triggered"] else ("none", 0)
+                if grp == "none":
+                    crash = "none"
+                elif grp == "write" and j < n:
+                    crash = ["write", j, bool(crash[2])]
+                elif grp in ("open", "close", "replace") and j == 0:
+                    crash = grp
+                else:
+                    # a call the modelled code does not make (a second open / close, one write more): the model
+                    # has no such crash point — the direct oracle alone judges this case
+                    return None
             runs.append({"path": obs["paths"][i], "chunks": self.chunks(obs, i), "overwrite": run["overwrite"],
                          "crash": crash})
-        return {"op": "history", "algo": "new", "runs": runs, "paths": sorted(set(obs["paths"])), "ops": True}
+        ids, init = self.model_paths(obs)
+        return {"op": "history", "algo": "new", "runs": runs, "paths": ids, "ops": True, "init": init,
+                "persist": case.get("mode", "once") == "persist"}
+
+    @staticmethod
+    def model_paths(obs):
+        """model paths of the history — output file t: t; the file behind it (link destination / other hard link):
+        DEST + t — and the starting directory in the driver's format"""
+        start = obs["start"]
+        nt = len(start["states"])
+        ids = list(range(nt)) + [DEST + t for t in range(nt) if start["dstates"][t] is not None]
+        init = []
+        for t in range(nt):
+            init.append({"path": t, "content": None if start["states"][t] == "absent" else [FOREIGN_ID],
+                         "tmp": bool(obs["init"][t]["stale"])})
+            if start["dstates"][t] is not None:
+                init.append({"path": DEST + t, "content": None if start["dstates"][t] == "absent" else [FOREIGN_ID],
+                             "tmp": False})
+        return ids, init
 
     @staticmethod
     def unreachable(crash, n):
         return isinstance(crash, list) and crash[1] >= n
 
     def model_states(self, case, obs, out):
-        """per step: (outcome, [state of every output file], [temporary present])"""
+        """per step: (outcome, {model path: state}, [temporary present])"""
         fulls = {}
         for i in range(len(obs["writes"])):
             fulls.setdefault((obs["paths"][i], tuple(self.chunks(obs, i))), obs["canon"][i])
+        ids, _ = self.model_paths(obs)
         res = []
         for st in out["steps"]:
-            states, tmps = [], []
-            for p, ent in enumerate(st["all"]):
+            states, tmps = {}, []
+            for p, ent in zip(ids, st["all"]):
                 pieces = ent["target"]
+                owner = p - DEST if p >= DEST else p
                 if pieces is None:
                     state = "absent"
-                elif all(x[0] == "f" for x in pieces) and (p, tuple(x[1] for x in pieces)) in fulls:
-                    state = "complete:%d" % fulls[(p, tuple(x[1] for x in pieces))]
+                elif pieces == [["f", FOREIGN_ID]]:
+                    state = "foreign"
+                elif all(x[0] == "f" for x in pieces) and (owner, tuple(x[1] for x in pieces)) in fulls:
+                    state = "complete:%d" % fulls[(owner, tuple(x[1] for x in pieces))]
                 else:
                     state = "partial"
-                states.append(state)
+                states[p] = state
                 tmps.append(ent["tmp"])
             res.append((st["outcome"], states, tmps))
         return res
 
     @staticmethod
     def norm_state(s):
-        return s if s == "absent" or s.startswith("complete") else "partial"
+        return s if s in ("absent", "foreign") or s.startswith("complete") else "partial"
 
     def compare(self, case, obs, out):
         if "err" in out:
             return f"model rejected the request: {out}"
+        xprev = obs["start"]["extra"]
         for k, (st, (mo, mstates, mtmps)) in enumerate(zip(obs["steps"], self.model_states(case, obs, out))):
             io_ = self.outcome(st)
             if io_ != mo:
                 return f"run {k}: implementation {io_} (raised {st['raised']}), model {mo}"
-            for p, (s, ms) in enumerate(zip(st["states"], mstates)):
-                if self.norm_state(s) != ms:
-                    return f"run {k}: output file {p} is {s} after the run, model says {ms}"
-            if bool(st["extra"]) != any(mtmps):
-                return f"run {k}: leftover files {st['extra']}, model says temporary present = {any(mtmps)}"
+            for p, s in enumerate(st["states"]):
+                if self.norm_state(s) != mstates[p]:
+                    return f"run {k}: output file {p} is {s} after the run, model says {mstates[p]}"
+            for p, s in enumerate(st["dstates"]):
+                # the file behind a link / the other hard link: the modelled code never writes to it; code that
+                # commits a complete output through the link is as good for the property
+                if s is not None and self.norm_state(s) != mstates[DEST + p] and not (
+                        s == st["states"][p] and s.startswith("complete")):
+                    return f"run {k}: the file behind output file {p} is {s} after the run, model says {mstates[DEST + p]}"
+            # the model never creates a leftover: a temporary sibling is there after a run only if a stale one was
+            # there before and the run was skipped.  That the modelled code also clears a stale file away when it
+            # does run is incidental (not compared): only new or changed leftovers count
+            left = [x for x in st["extra"] if x not in xprev]
+            if left or (any(mtmps) and not st["extra"]):
+                return f"run {k}: leftover files {st['extra']} (new or changed: {left}), model says temporary present = {any(mtmps)}"
+            xprev = st["extra"]
             # operation level: is the output file touched before the last operation of the export
             info = out["steps"][k].get("ops")
             if info is not None:
@@ -798,13 +1013,19 @@ class Prop(Check):
 
     # --------------------------------------------------------------- oracle
     def oracle(self, case, obs):
-        prevs = ["absent"] * len(set(obs["paths"]))
+        start = obs["start"]
+        prevs, dprevs, eprevs, xprev = start["states"], start["dstates"], start["entries"], start["extra"]
+        how = {"once": "", "persist": ", and every later write / flush / close"}[case.get("mode", "once")]
         for k, (run, st) in enumerate(zip(case["runs"], obs["steps"])):
             own = obs["paths"][run["input"]]
             prev, state = prevs[own], st["state"]
-            good = state == "absent" or state.startswith("complete")
-            if st["extra"]:
-                return f"run {k}: files left behind next to the output: {st['extra']} (after {run['crash']}, raised {st['raised']})"
+            good = state in ("absent", "foreign") or state.startswith("complete")
+            left = [x for x in st["extra"] if x not in xprev]
+            if left:
+                # a leftover that was there before the run (a stale file of a killed run) is not this run's doing —
+                # unless the run changed it
+                return (f"run {k}: files left behind next to the output: {[[x[0], x[1]] for x in left]} (name, size; "
+                        f"after failure at {run['crash']}{how}, raised {st['raised']})")
             if self.mid_bad(st):
                 # "fails at any point": a generator that stops between two file operations leaves what is there then
                 return (f"run {k}: before operation '{st['mid']['before']}' of the export the output file was already "
@@ -812,6 +1033,13 @@ class Prop(Check):
             for p, (a, b) in enumerate(zip(prevs, st["states"])):
                 if p != own and a != b:
                     return f"run {k} (for output file {own}) changed output file {p} from {a} to {b}"
+            want = "complete:%d" % obs["canon"][run["input"]]
+            for p, (a, b) in enumerate(zip(dprevs, st["dstates"])):
+                # the file the output file name leads to (link destination, other hard link) is generated output as
+                # well: as before, or — after a completed run for it — the complete output
+                if a != b and not (p == own and not st["raised"] and st["touched"] and b == want):
+                    return (f"run {k} ({'failed at %s%s' % (run['crash'], how) if st['raised'] else 'returned normally'}): "
+                            f"the file behind output file {p} ({obs['init'][p]['kind']}) changed from {a} to {b}")
             if st["raised"]:
                 if not st["triggered"]:
                     return f"run {k}: the generator raised {st['raised']} without an injected failure"
@@ -827,7 +1055,6 @@ class Prop(Check):
                 if st["triggered"]:
                     return f"run {k}: the injected failure at {run['crash']} was swallowed (generator returned normally), output is {state}"
                 if st["touched"]:
-                    want = "complete:%d" % obs["canon"][run["input"]]
                     if state != want:
                         return f"run {k}: generator returned normally but the output is {state}, expected {want}"
                     if not run["overwrite"] and prev != "absent":
@@ -836,11 +1063,14 @@ class Prop(Check):
                     # skipped as already generated
                     if run["overwrite"] or prev == "absent":
                         return f"run {k}: nothing generated although overwrite={run['overwrite']} and the output was {prev}"
-                    if not prev.startswith("complete"):
+                    if not (prev.startswith("complete") or prev == "foreign"):
                         return f"run {k}: a partially written file ({prev}) was skipped as already generated"
                     if state != prev:
                         return f"run {k}: skipped but the output changed from {prev} to {state}"
-            prevs = list(st["states"])
+            if (st["raised"] or not st["touched"]) and st["entries"] != eprevs:
+                return (f"run {k} ({'failed' if st['raised'] else 'skipped'}): the kinds of the directory entries of the "
+                        f"output files changed from {eprevs} to {st['entries']}")
+            prevs, dprevs, eprevs, xprev = list(st["states"]), list(st["dstates"]), list(st["entries"]), list(st["extra"])
         return None
 
     # ------------------------------------------------------------- the rest
@@ -855,15 +1085,19 @@ class Prop(Check):
                 yield dict(case, runs=runs[:i] + runs[i + 1:])
         if len(case["inputs"]) > 1:
             yield dict(case, inputs=case["inputs"][:1], runs=[dict(r, input=0) for r in runs])
-        for key in ("via", "beside", "args"):
+        for key in ("via", "beside", "args", "mode", "init"):
             if case.get(key):
                 yield {k: v for k, v in case.items() if k != key}
+        for t, ini in enumerate(case.get("init") or []):
+            for simpler in ([{"kind": "none"}] if ini.get("kind", "none") != "none" and ini.get("stale") else []) + \
+                    ([dict(ini, stale=False)] if ini.get("stale") else []):
+                yield dict(case, init=case["init"][:t] + [simpler] + case["init"][t + 1:])
         for i, r in enumerate(runs):
             if r.get("exc", "OSError") != "OSError":
                 yield dict(case, runs=runs[:i] + [dict(r, exc="OSError")] + runs[i + 1:])
             if isinstance(r["crash"], list) and r["crash"][1] > 0:
                 for k in (0, r["crash"][1] // 2, r["crash"][1] - 1):
-                    yield dict(case, runs=runs[:i] + [dict(r, crash=["write", k, r["crash"][2]])] + runs[i + 1:])
+                    yield dict(case, runs=runs[:i] + [dict(r, crash=[r["crash"][0], k, r["crash"][2]])] + runs[i + 1:])
         # smaller file sets: drop a file nobody needs / a line of a file (candidates that no longer load are
         # rejected by the runner: the harness reports them as crashed)
         for i, inp in enumerate(case["inputs"]):
@@ -890,10 +1124,12 @@ class Prop(Check):
         text = inp["text"] if "text" in inp else inp["files"][inp["main"]]
         view = {"kind": case["kind"], "runs": case["runs"], "input0": text[:200],
                 "files0": sorted(inp.get("files") or []),
-                "settings": {k: case[k] for k in ("provider", "args", "via", "beside") if case.get(k)}}
+                "settings": {k: case[k] for k in ("provider", "args", "via", "beside", "mode", "init") if case.get(k)}}
         view["impl"] = obs if not isinstance(obs, dict) or "steps" not in obs else {
             "writes": obs["writes"], "paths": obs["paths"],
-            "steps": [{k: s[k] for k in ("raised", "triggered", "states", "extra", "events")} for s in obs["steps"]]}
+            "start": obs.get("start"),
+            "steps": [{k: s.get(k) for k in ("raised", "triggered", "fired", "refires", "states", "dstates", "entries",
+                                             "extra", "events")} for s in obs["steps"]]}
         return view
 
     def extra_search(self, rng, tier, broken):
@@ -904,12 +1140,18 @@ class Prop(Check):
                 "fired_open": 0, "fired_close": 0, "fired_replace": 0, "not_reached": 0, "by_kind": {}, "by_exc": {},
                 "writes_per_export_max": 0, "inputs": 0, "by_provider": {}, "multi_file_inputs": 0,
                 "two_output_files": 0, "via_cli": 0, "with_linetype": 0, "beside": 0,
-                "fired_in_cluster_export": 0}
+                "fired_in_cluster_export": 0, "by_mode": {}, "by_init": {}, "stale_tmp": 0, "later_failures": 0,
+                "fired_by_call_index": 0, "runs_on_linked_output": 0}
         seen_inputs = set()
         for c, o in zip(cases, obs):
             if not isinstance(o, dict) or "steps" not in o:
                 continue
             dist["by_kind"][c["kind"]] = dist["by_kind"].get(c["kind"], 0) + 1
+            md = c.get("mode", "once")
+            dist["by_mode"][md] = dist["by_mode"].get(md, 0) + 1
+            for ini in o.get("init") or []:
+                dist["by_init"][ini["kind"]] = dist["by_init"].get(ini["kind"], 0) + 1
+                dist["stale_tmp"] += bool(ini["stale"])
             inp = c["inputs"][0]
             key = json.dumps(inp, sort_keys=True)
             multi = len(inp.get("files") or ()) > 1
@@ -927,10 +1169,15 @@ class Prop(Check):
             for run, st in zip(c["runs"], o["steps"]):
                 dist["runs"] += 1
                 dist[self.outcome(st)] += 1
+                dist["later_failures"] += st.get("refires", 0)
+                dist["runs_on_linked_output"] += st["touched"] and o["init"][o["paths"][run["input"]]]["kind"] in (
+                    "dangling", "link", "hardlink")
                 if st["triggered"]:
                     dist["by_exc"][run.get("exc", "OSError")] = dist["by_exc"].get(run.get("exc", "OSError"), 0) + 1
                     cr = run["crash"]
-                    if isinstance(cr, list):
+                    if isinstance(cr, list) and cr[0] == "call":
+                        dist["fired_by_call_index"] += 1
+                    elif isinstance(cr, list):
                         dist["fired_at_write"] += 1
                         dist["fired_partial_write"] += bool(cr[2])
                         dist["fired_in_cluster_export"] += c["kind"] == "model_dot" and multi and run["input"] == 0
